@@ -498,6 +498,9 @@ func (r *Report) Finish(verifDir string, seed int64) int {
 		fmt.Printf("KNOWN-FINDING: property=%s %s [%s] %s\n", r.Prop, known[o.Key].What, o.Key, o.Pos)
 	}
 	if len(broken) > 0 {
+		for _, o := range failing {
+			fmt.Printf("  FAIL %s at %s: %s\n", o.Key, o.Pos, o.Detail)
+		}
 		for _, b := range broken {
 			fmt.Printf("ERROR %s: %s\n", r.Prop, b)
 		}
